@@ -4695,6 +4695,9 @@ class ResponseFuture(object):
         self._event.clear()
         self._final_result = _NOT_SET
         self._final_exception = None
+        # the page fetch is a new request: it gets its own timeout
+        self._start_time = time.time()
+        self._timer = None
         self._start_timer()
         self.send_request()
 
